@@ -184,3 +184,22 @@ Example candidates_six_instance :
   [ Pn ["src"; "example"]; Pn ["src"; "example.luau"]; Pn ["src"; "example.lua"];
     Pn ["src"; "example"; "init"]; Pn ["src"; "example"; "init.luau"]; Pn ["src"; "example"; "init.lua"] ].
 Proof. vm_compute. reflexivity. Qed.
+
+(** names that merely begin with the module folder name are not module-folder files: the test is
+    on the whole file name and on the file stem (up to the LAST dot) *)
+Example init_like_names_are_ordinary_files :
+  is_module_folder_name luau_mode (Pn ["src"; "pkg"; "init.spec.luau"]) = false /\
+  is_module_folder_name luau_mode (Pn ["src"; "pkg"; "init.server.luau"]) = false /\
+  is_module_folder_name (path_mode "index") (Pn ["src"; "pkg"; "index.spec.lua"]) = false /\
+  is_module_folder_name luau_mode (Pn ["src"; "pkg"; "init.luau"]) = true /\
+  is_module_folder_name luau_mode (Pn ["src"; "pkg"; "init.config"]) = true /\
+  head_path luau_mode None (Pn ["src"; "pkg"; "init.spec.luau"]) [Cur; Norm (S "helper")] = inl (Pn ["src"; "pkg"; "helper"]) /\
+  head_path luau_mode None (Pn ["src"; "pkg"; "init.luau"]) [Cur; Norm (S "helper")] = inl (Pn ["src"; "helper"]) /\
+  generate_require luau_mode (Pn ["src"; "a.lua"]) (Pn ["src"; "pkg"; "init.spec.luau"]) = S "./pkg/init.spec" /\
+  generate_require (path_mode "init") (Pn ["src"; "pkg"; "init.spec.luau"]) (Pn ["src"; "pkg"; "helper.luau"]) = S "./helper".
+Proof. vm_compute. repeat split; reflexivity. Qed.
+
+Lemma is_module_folder_name_last c q n :
+  is_module_folder_name c (q ++ [Norm n]) =
+  bytes_eqb n (module_folder_name c) || opt_bytes_eqb (name_stem n) (module_folder_name c).
+Proof. unfold is_module_folder_name. rewrite file_stem_snoc, file_name_snoc. reflexivity. Qed.
